@@ -1,6 +1,7 @@
 #!/bin/bash
 # seedfacts.sh <patch.diff> <out facts dir>  -- facts of /repo HEAD + patch, via a throw-away worktree
 P=$1; OUT=$2
+case "$OUT" in /tmp/*) ;; *) echo "seedfacts.sh: refusing to write facts to $OUT"; exit 1;; esac
 W=$(mktemp -d /tmp/sw.XXXXXX); rmdir $W
 git -C /repo worktree add -q --detach $W HEAD || exit 1
 if git -C $W apply $P; then
